@@ -26,7 +26,7 @@ def main():
     env = dict(os.environ, DCLAB_VERIF_REPO=str(wt), VERIF_NO_EVIDENCE="1")
     try:
         for d in sys.argv[1:]:
-            d = pathlib.Path(d)
+            d = pathlib.Path(d).resolve()
             for diff in sorted(d.glob("refactor*.diff")):
                 sh(f"git -C {wt} checkout -- .")
                 ap = sh(f"git -C {wt} apply {diff}")
